@@ -5,6 +5,7 @@
 from __future__ import annotations
 
 from pathlib import Path
+import sys
 from typing import Final, Iterable, Optional, cast
 
 from logrus import Logger
@@ -90,7 +91,7 @@ class SQLRepo:
         # If the user asked for really verbose output...
         if self._verbose > 1:
             # ... then we print the SELECT statement.
-            print(select_of_note)
+            print(select_of_note, file=sys.stderr)
 
         notes: list[Note] = []
         for sql_note in self._session.exec(select_of_note):
